@@ -482,8 +482,18 @@ func judgeHang(r *Run, j *Judged) {
 						// never give them back - responses the cache received, did not hand on and did not close
 						// (a caller closes what it gets; a request whose context ends loses its connection)
 						held := []string{}
+						leak := len(r.conns) > 0
 						for _, c := range r.conns {
 							held = append(held, fmt.Sprintf("#%d", c.call.ID))
+							// a holder whose origin has not answered yet, or whose response another caller is still
+							// entitled to (its round trip has not returned), is not a leak of the cache's
+							he := r.exchFor(c.call.Owner, c.call.OwnerOp)
+							if !c.call.Ended || (he != nil && he != e && !he.Returned) {
+								leak = false
+							}
+						}
+						if !leak {
+							continue
 						}
 						j.fail("C10", "hang:conn-leak", e, "", "RoundTrip waits for ever for one of the %d connection(s) the upstream transport allows: held by the unclosed response(s) of origin call(s) %s (virtual time %s)", r.Scn.MaxConns, strings.Join(held, ","), r.Sim.Now())
 					}
